@@ -303,17 +303,17 @@ S(id='static_storage', props=['C16', 'C02'], kind='static_storage', files=['lib/
 S(id='omp_threadnum_absent', props=['C02'], kind='absent', pattern=r'omp_get_thread_num|omp_get_num_threads|#\s*pragma\s+omp\s+(critical|atomic|ordered|flush)', files=['lib/src/*.c'], keep_pp=True,
   text='no code depends on the thread id / team size and there are no critical/atomic sections (results cannot depend on which thread ran a task)')
 S(id='omp_tree_merge_order', props=['C02', 'C10'], kind='order', files=['lib/src/aln_run.c'], function='recursive_aln', keep_pp=True,
-  sequence=[r'#pragma omp task', r'recursive_aln\(msa, t, ap, active, a\)', r'#pragma omp task', r'recursive_aln\(msa, t, ap, active, b\)', r'#pragma omp taskwait', r'alloc_aln_mem\(&ml', r'do_align\(msa,t,ml,c\)', r'free_aln_mem\(ml\)'],
-  text='recursive_aln: both child merges are spawned as tasks, a taskwait follows, and only then the merge of this node runs, with an aln_mem allocated privately for this merge')
+  sequence=[r'#pragma omp task', r'recursive_aln\(msa, t, ap, active, a\)', r'#pragma omp task', r'recursive_aln\(msa, t, ap, active, b\)', r'#ifdef HAVE_OPENMP\s*#pragma omp taskwait\s*#endif', r'alloc_aln_mem\(&ml', r'do_align\(msa,t,ml,c\)', r'free_aln_mem\(ml\)'],
+  text='recursive_aln: both child merges are spawned as tasks, an UNCONDITIONAL taskwait follows (directly inside its #ifdef HAVE_OPENMP, not inside an if), and only then the merge of this node runs, with an aln_mem allocated privately for this merge')
 S(id='omp_hirschberg_order', props=['C02'], kind='order', files=['lib/src/aln_controller.c'], function='aln_runner', keep_pp=True,
-  sequence=[r'#pragma omp task', r'aln_seqseq_foward\(m\)', r'#pragma omp task', r'aln_seqseq_backward\(m\)', r'#pragma omp taskwait', r'aln_seqseq_meetup\(',
-            r'#pragma omp task', r'aln_profileprofile_foward\(m\)', r'#pragma omp task', r'aln_profileprofile_backward\(m\)', r'#pragma omp taskwait', r'aln_profileprofile_meetup\(',
-            r'#pragma omp task', r'aln_seqprofile_foward\(m\)', r'#pragma omp task', r'aln_seqprofile_backward\(m\)', r'#pragma omp taskwait', r'aln_seqprofile_meetup\('],
+  sequence=[r'#pragma omp task', r'aln_seqseq_foward\(m\)', r'#pragma omp task', r'aln_seqseq_backward\(m\)', r'#ifdef HAVE_OPENMP\s*#pragma omp taskwait\s*#endif', r'aln_seqseq_meetup\(',
+            r'#pragma omp task', r'aln_profileprofile_foward\(m\)', r'#pragma omp task', r'aln_profileprofile_backward\(m\)', r'#ifdef HAVE_OPENMP\s*#pragma omp taskwait\s*#endif', r'aln_profileprofile_meetup\(',
+            r'#pragma omp task', r'aln_seqprofile_foward\(m\)', r'#pragma omp task', r'aln_seqprofile_backward\(m\)', r'#ifdef HAVE_OPENMP\s*#pragma omp taskwait\s*#endif', r'aln_seqprofile_meetup\('],
   text='aln_runner: forward and backward halves are two tasks, joined by taskwait before the meet-in-the-middle step, for each of the three kernels')
 S(id='omp_kmeans_order', props=['C02'], kind='order', files=['lib/src/bisectingKmeans.c'], function='bisecting_kmeans', keep_pp=True,
   sequence=[r'#pragma omp task', r'split2\([^;]*&res\[0\]\)', r'#pragma omp task', r'split2\([^;]*&res\[1\]\)', r'#pragma omp task', r'split2\([^;]*&res\[2\]\)',
-            r'#pragma omp task', r'split2\([^;]*&res\[3\]\)', r'#pragma omp taskwait', r'for\(j = 0; j < 4;j\+\+\)',
-            r'#pragma omp task', r'bisecting_kmeans\(msa,&n->left', r'#pragma omp task', r'bisecting_kmeans\(msa,&n->right', r'#pragma omp taskwait', r'\*ret_n =n'],
+            r'#pragma omp task', r'split2\([^;]*&res\[3\]\)', r'#ifdef HAVE_OPENMP\s*#pragma omp taskwait\s*#endif', r'for\(j = 0; j < 4;j\+\+\)',
+            r'#pragma omp task', r'bisecting_kmeans\(msa,&n->left', r'#pragma omp task', r'bisecting_kmeans\(msa,&n->right', r'#ifdef HAVE_OPENMP\s*#pragma omp taskwait\s*#endif', r'\*ret_n =n'],
   text='bisecting_kmeans: four restarts write res[0..3] as separate tasks, taskwait, then a fixed-order reduction; the two recursive halves are tasks joined by taskwait')
 S(id='omp_set_num_threads_each_call', props=['C16', 'C02'], kind='order', files=['lib/src/aln_wrap.c'], function='kalign_run', keep_pp=True,
   sequence=[r'kalign_essential_input_check', r'omp_set_num_threads\(n_threads\)', r'build_tree_kmeans'],
